@@ -27,7 +27,7 @@ OUTSIDE = ["headings inside wrappers (C05)", "directives other than admonitions"
 STUBS = ["file system: temporary directory created at run time for the included file"]
 NONTRIVIAL_RULE = "paths whose X contains a definition (link reference, target or footnote) or a nested directive"
 
-XK = ["para", "emph", "list", "quote", "code", "refdef-use", "target-link", "footnote", "nested-note", "two-paras", "html", "hardbreak", "tabs", "rule-in-body", "indented-code-first", "inline-spaces", "dashes-line"]
+XK = ["para", "emph", "list", "quote", "code", "refdef-use", "target-link", "footnote", "nested-note", "two-paras", "html", "hardbreak", "tabs", "rule-in-body", "indented-code-first", "inline-spaces", "dashes-line", "formfeed"]
 
 
 def setup():
@@ -48,6 +48,7 @@ def x_lines(kind, n):
         "two-paras": ["X%d one" % n, "", "X%d two" % n],
         "html": ["<div>X%d</div>" % n],
         "hardbreak": ["X%d first  " % n, "second\\", "third line"],  # trailing double space / backslash = hard line breaks
+        "formfeed": ["X%d a\x0cb c\u2028d" % n, "e\x0bf", "", "next para"],  # characters that str.splitlines treats as line breaks but Markdown does not
         "inline-spaces": ["X%d `a  b`  two  spaces\tand a tab" % n, "second  line"],
         "dashes-line": ["X%d para" % n, "", "second para", "-- a line that starts with dashes inside a paragraph", "continues", "", "last para"],
         "rule-in-body": ["X%d before the rule" % n, "", "---", "", "after the rule", "", "-----"],
@@ -57,7 +58,7 @@ def x_lines(kind, n):
 
 
 WRAPPERS = ["note-backtick", "note-colon", "note-class", "note-dashes", "note-blank2", "nested2", "nested3", "include", "substitution", "colon-in-backtick", "colon-firstline", "backtick-firstline", "epigraph"]
-FIRSTLINE_OK = ["para", "emph", "two-paras", "inline-spaces", "dashes-line"]  # kinds whose first line may sit on the fence line of an argument-less directive
+FIRSTLINE_OK = ["para", "emph", "two-paras", "inline-spaces", "dashes-line", "formfeed"]  # kinds whose first line may sit on the fence line of an argument-less directive
 
 
 def wrap(w, xlines):
